@@ -59,6 +59,22 @@ CLAIMED = {
          'Machine-checked proof (Lean 4) for EVERY source the lexer accepts and every configuration: the text luamin writes lexes to exactly the input\'s significant tokens in order - keywords, symbols, numbers by spelling, strings by decoded value and quote kind, identifiers and labels up to one renaming function - provided no two adjacent symbol/number tokens form a pair that fuses when written back to back and that luamin does not separate (FusablePair: `~` `=`, `<` `<`, `.` `5`, ...); such pairs cannot be adjacent in a program the parser accepts (grammar fact, covered by the generator-based checks, not proved). Also proved: the four fusing pairs of valid programs are separated, word-like tokens are always separated, newline tokens are kept (line-scoped shorthands keep their extent), token count is invariant under the read-back relation. Tied to lua.py by differential execution on programs x layouts x configurations and all grammatical ordered pairs of 70 token-class representatives; the real output is re-lexed by the Lean reference lexer.',
          'Trusted: Lean kernel; hand models of LuaMinifyTokenWriter/lexer; that accepted programs contain no FusablePair (tested); CLI wiring (luamin, build --lua-minify) by correspondence only.',
          '5/C01'),
+ 'C09': ('Lean 4 proof: writer model = parser tree walk (indent assignment) + run renderer + assembler; theorems on the assembler for EVERY run renderer and on the formatter\'s regex pipeline; correspondence with compiled model',
+         'Machine-checked proof (Lean 4): (1) for every run renderer, a successful tree-driven write is exactly the walked tokens\' codes in stream order, each preceded by the rendering of the trivia tokens in front of it, the walked tokens being consecutive significant tokens with none left at the end (with C08.cover: all tokens the parser consumed); (2) if the walk stops before a significant token of the stream - the code could not be parsed to its end - the writer fails instead of writing a shortened program; (3) the formatter\'s rendering of a run differs from the run only in whitespace characters and contains a line break iff the run did (short-if bodies and end-of-line comments keep their extent); (4) the indent walk visits exactly the tree\'s leaves in order. Tied to lua.py by differential execution of luafmt and LuaASTEchoWriter on generated programs x layouts x widths 0-8, malformed programs and degenerate programs; the real output is re-lexed by the Lean reference lexer. PARTIAL: "luafmt succeeds on every valid program" is tested (agreement of parser and writer grammars); known finding: parenthesised prefix expressions.',
+         'Trusted: Lean kernel; hand model of the walk handlers (indent assignment) and of the regex pipeline; parser model (C08); correspondence is testing. String literals are re-spelled by TokString.code (C06) and compared by value.',
+         '5/C09'),
+ 'C10': ('Lean 4 proof: invariants established stage by stage through the regex pipeline (no space before LF, no triple LF, exact indentation), idempotence and layout-invariance lemmas; correspondence with compiled model and an independent nesting-depth oracle',
+         'Machine-checked proof (Lean 4) about what LuaFormatterWriter writes for ANY run of space/newline/comment text, width, indent level and position: no line ends in whitespace, never more than one blank line, no blank line or trailing space at the end of the file, a code token that begins a line is preceded by exactly width x depth spaces, rendering is idempotent, and trailing spaces/tabs of an input line as well as the indentation of blank, comment and code-start lines do not influence the output. Tied to lua.py by comparing the real _get_code_for_spaces and the real luafmt with the model on synthetic runs and generated programs; the harness checks idempotence, re-indentation invariance and the line-shape clauses on real output with a nesting depth computed independently of picotool. PARTIAL: lifting the run-level invariance to whole programs (the tree depends only on significant tokens and newline gaps) is tested, not proved.',
+         'Trusted: Lean kernel; hand model of the regex pipeline (Python re semantics for these seven patterns) and of the indent assignment; correspondence is testing.',
+         '5/C10'),
+ 'C11': ('Lean 4 proof of the write protocol as a trace machine (failure at any point leaves the destination untouched; destination operations come last); fault enumeration on the real code checks the recorded operation trace against the protocol',
+         'Machine-checked proof (Lean 4) about the protocol model of file.to_file for EVERY encoder behaviour (any number of writes, then return or raise): on failure the destination is unchanged and no operation that creates/truncates/writes it occurs; on success it holds exactly what the encoder wrote; in every run the destination-touching operations are the very last ones. The model is tied to the code by fault injection: the k-th write to the temporary stream raises for every k (sampled in quick), plus internal failure sources (writer raises, section encoder raises, PNG: oversize code / bad label / version > 255) x {.p8,.p8.png} x {destination exists, absent} x each Lua writer, comparing destination bytes and the recorded open/write trace. PARTIAL by nature: OS-level faults during the final copy are outside the model.',
+         'Trusted: Lean kernel; the protocol abstraction (formatters as "writes then returns/raises"); tempfile/open semantics; fault injection is testing.',
+         '5/C11'),
+ 'C13': ('Lean 4 proof of the section-selection fold (invariant over the six sections), conflict/unusable-argument failure; correspondence through real CLI builds',
+         'Machine-checked proof (Lean 4) for EVERY argument assignment, file facts and previous OUT: after a successful build each section is the named source\'s section, the empty default, or OUT\'s previous section exactly as the arguments say; --X with --empty-X, a missing file or a wrong extension for any section makes the command fail before anything is written; a bad output name fails; no arguments reproduce OUT. Tied to build.py/tool.py by real `p8tool build` runs (quick: random assignments + every conflict kind for every section; thorough: all 4^6 assignments) whose outputs are read back and compared per section, including label preservation for .p8 and .p8.png outputs. PARTIAL: argparse wiring and cart I/O are correspondence-tested.',
+         'Trusted: Lean kernel; the abstraction of carts as section->bytes; readers/writers (C03/C04); correspondence is testing.',
+         '5/C13'),
 }
 NOT_YET = 'check not built yet in this round (framework under construction); will be claimed when its Lean model, theorems and correspondence run'
 
